@@ -57,6 +57,7 @@ RULE = ('direct: random pin (FuelModel metal fuel: pu/zr/porosity per zone; '
         'full weight matrix probed (weights); distinct by (model, zones, '
         'annular, gap, material law kinds, rings)')
 RULE += (' Later rounds added: user clad-film parameters with unequal exponents; the pin record of every assembly re-read at the end of each reactor step.')
+RULE += (' Round 11: after every Assembly.calculate of a region with a pin model the pin record must be the one of this step (coolant column = adjacent-subchannel average of the new coolant, own height), also on steps without pin power.')
 DECIDING = ['ordering', 'zero_power_equal', 'film_drop', 'clad_drop',
             'clad_mid_drop', 'gap_drop', 'fuel_centre_reference',
             'fuel_shell_conduction', 'monotone_in_power',
@@ -1065,6 +1066,38 @@ def run_sweep(case, res):
                             W, _ = probe_weights(res, mon, reg, prng, key0)
                             rm.W[id(reg)] = (reg, W)
                             done += 1
+            def fresh(args, kwargs, result, tok):
+                # after EVERY axial step of an assembly whose active region
+                # carries a pin model (heated or not) the pin record is that
+                # of this step: its coolant column is the average of the
+                # adjacent subchannels of the coolant just computed, and it
+                # carries this step's height
+                a = args[0]
+                reg = a.active_region
+                if not hasattr(reg, 'pin_model') or not reg.is_rodded:
+                    return
+                Tsc = np.asarray(reg.temp['coolant_int'], dtype=float)
+                adj = np.asarray(reg.subchannel.pin_adj)
+                w = np.asarray(reg._q_p2sc, dtype=float)
+                own = np.where(adj >= 0, (Tsc * w)[np.clip(adj, 0, None)],
+                               0.0).sum(axis=1)
+                got = np.asarray(reg.pin_temps[:, 3], dtype=float)
+                dev = float(np.max(np.abs(got - own)))
+                z = kwargs.get('z', args[4] if len(args) > 4 else None)
+                z_ok = True if z is None else bool(
+                    np.all(np.abs(reg.pin_temps[:, 1] - float(z)) <= 1e-9))
+                res.check('pin_record_refreshed_every_step',
+                          dev <= 1e-8 and z_ok,
+                          'after a step of assembly %d the pin record does '
+                          'not belong to this step: coolant column differs '
+                          'from the adjacent-subchannel average of the new '
+                          'coolant by %.3e K (height ok: %s)'
+                          % (a.id, dev, z_ok),
+                          dict(key0, mech='pin_record_stale'),
+                          {'asm': a.id, 'dev': dev})
+
+            from dassh.assembly import Assembly
+            hk.wrap(Assembly, 'calculate', post=fresh)
             try:
                 drive.sweep(r, on_step=after)
             finally:
